@@ -16,3 +16,6 @@ mod validate_shape;
 pub(crate) mod vanishing_poly;
 pub mod vars;
 pub mod verifier;
+
+#[cfg(feature = "verif_hooks")]
+pub(crate) use validate_shape::validate_proof_with_pis_shape as verif_validate_proof_with_pis_shape;
